@@ -37,7 +37,7 @@ def frag_set_case(rng):
         if coarse:
             g = M.gen_coarse_graph(rng, rng.randint(1, 8), orders=(0, 1, 1, 1, 2, 3))
         else:
-            g = M.gen_molecule(rng, max_heavy=rng.choice([1, 3, 6, 10]), p_ring=rng.choice([0.25, 0.7]))
+            g = M.gen_molecule(rng, max_heavy=rng.choice([1, 3, 6, 10]), p_ring=rng.choice([0.25, 0.7]), p_arom=rng.choice([0.3, 0.3, 0.8]), p_thio=0.5)
         desc = {}
         p = rng.choice([0.2, 0.5])
         orders = rng.choice([(1,), (1, 2, 3), (0, 1, 2, 3)])
